@@ -207,8 +207,9 @@ def run(ctx):
     odd = ["2HDM", "3BODY_PHSP", "-X", ".X", "+Y", "(M)", "FOO:1", "_U", "M'", "A*B", "a/b", "X~", "_", "7TeV-tune", "-", "2",
            # characters outside ASCII, among them ones that a compatibility normalisation would fold onto others (micro sign,
            # superscript two, full-width letter, a true minus sign): a registered name is reported character for character
+           "MY MODEL", "Model v2 (tuned)",
            "BTOSLL_\u00b5\u00b5", "FLATQ\u00b2", "\uff2dODEL", "X\u2212Y", "Mod\u00e8le", "\u039b_b"]
-    for u in odd if tier == "thorough" else rng.sample(odd[:16], 6) + rng.sample(odd[16:], 3):
+    for u in odd if tier == "thorough" else rng.sample(odd[:16], 5) + odd[16:18] + rng.sample(odd[18:], 3):
         extra = [u] + (["ZZTOP"] if rng.random() < 0.5 else [])
         calls = rng.choice([1, 2])
         for photos, pars in ((False, False), (True, True), (False, True)):
